@@ -4,3 +4,4 @@ import UvModel.Props.C04Heap
 import UvModel.Props.C20
 import UvModel.Props.C04Timer
 import UvModel.Props.C12
+import UvModel.Props.C11
